@@ -1457,9 +1457,19 @@ func concurrency(r *mon.Run) {
 				structBad := ""
 				for p := 0; p <= P; p++ {
 					var wg sync.WaitGroup
-					var ready, start atomic.Int32
+					var ready, start, arrived atomic.Int32
 					res := make([][]cOp, G)
 					active := 0
+					nActive := 0
+					for g := 0; g < G; g++ {
+						for _, o := range plan[g] {
+							if o.phase == p {
+								nActive++
+								break
+							}
+						}
+					}
+					burst := min(nActive, runtime.GOMAXPROCS(0))
 					for g := 0; g < G; g++ {
 						var mine []gop
 						for _, o := range plan[g] {
@@ -1480,6 +1490,15 @@ func concurrency(r *mon.Run) {
 							ready.Add(1)
 							for start.Load() == 0 {
 								runtime.Gosched()
+							}
+							// second gate: the first goroutines to get a processor wait
+							// (briefly spinning) for each other, so that they enter
+							// TestAndSet truly in parallel
+							arrived.Add(1)
+							for spins := 0; int(arrived.Load()) < burst; spins++ {
+								if spins > 2000 {
+									runtime.Gosched()
+								}
 							}
 							for _, o := range mine {
 								buf := vs.vals[o.v]
